@@ -591,6 +591,39 @@ func exhaustiveC03(thorough bool, emit func(C03Case) bool) {
 			}
 		}
 	}
+	// multi-byte tokens (BOM, fmt verbs, gzip magic, NEL/NBSP) at the start and inside of every
+	// text field of the FIRST record of a file without headers, and of a later record
+	for _, tok := range gen.HostileTokens {
+		for field := 0; field < 7; field++ {
+			for pos := 0; pos < 2; pos++ {
+				val := append(append(gen.B{}, tok...), 'x')
+				if pos == 1 {
+					val = append(append(gen.B{'x'}, tok...), 'y')
+				}
+				r := baseSamRec
+				r.Tags = append([]SamTag(nil), r.Tags...)
+				switch field {
+				case 0:
+					r.Qname = val
+				case 1:
+					r.Rname = val
+				case 2:
+					r.Cigar = val
+				case 3:
+					r.Rnext = val
+				case 4:
+					r.Seq = val
+				case 5:
+					r.Qual = val
+				case 6:
+					r.Tags[1].Z = val
+				}
+				if !emit(C03Case{Kind: "file", Recs: []SamRec{r, baseSamRec, r}}) {
+					return
+				}
+			}
+		}
+	}
 	// long reads: lines beyond bufio's 4096-byte buffer and beyond 64 KiB
 	for _, n := range []int{4000, 4096, 9000, 40000, 70000, 200000} {
 		r := baseSamRec
